@@ -1,6 +1,8 @@
 (* Proofs for C17 over the routing model of Auth/Acl.v: an invariant of [astep] for ALL permission
-   relations, matching relations, filter-validity predicates and histories; plus the lemmas for the
-   server-level clause of C30 (invalid filter: 0x8F / 0x80, nothing created, nothing delivered). *)
+   relations, matching relations, filter-validity / shared-filter predicates, share-group oracles and
+   histories (incl. takeover, expiry, topic aliases, QoS 2, shared subscriptions, No-Local); plus the
+   lemmas for the server-level clause of C30 (invalid filter: 0x8F / 0x80, nothing created, nothing
+   delivered). *)
 From MV Require Import Base.Val Topics.Levels Topics.Match Hooks.Chain Auth.Acl.
 From Coq Require Import Lia.
 Open Scope N_scope.
@@ -29,34 +31,52 @@ Qed.
 Lemma Forall_filter {A} (P : A -> Prop) (f : A -> bool) (l : list A) : Forall P l -> Forall P (filter f l).
 Proof. induction 1; cbn; [constructor|]. destruct (f x); [constructor|]; assumption. Qed.
 
+Lemma alias_get_In (a : N) (l : list (N * bytes)) (t : bytes) : alias_get a l = Some t -> In (a, t) l.
+Proof.
+  induction l as [|[k t'] l IH]; cbn; [discriminate|].
+  destruct (a =? k) eqn:E; [intro H; injection H as ->; apply N.eqb_eq in E; subst k; left; reflexivity|].
+  intro H. right. apply IH, H.
+Qed.
+
 Section Proofs.
 Variable perm : client -> bytes -> bool -> bool.
 Variable matches : bytes -> bytes -> bool.
 Variable valid_filter : bytes -> bool.
+Variable is_shared : bytes -> bool.
+Variable eff : bytes -> bytes.
 
 Local Notation msg_ok := (msg_ok perm).
-Local Notation justified := (justified perm matches valid_filter).
-Local Notation deliveries_ok := (deliveries_ok perm matches valid_filter).
-Local Notation fanout := (fanout perm matches).
-Local Notation route := (route perm matches).
-Local Notation send_will := (send_will perm matches).
-Local Notation close_with_will := (close_with_will perm matches).
-Local Notation sub_codes := (sub_codes perm valid_filter).
-Local Notation replay_one := (replay_one perm matches).
-Local Notation replay_granted := (replay_granted perm matches).
-Local Notation fire := (fire perm matches).
-Local Notation astep := (astep perm matches valid_filter).
-Local Notation arun := (arun perm matches valid_filter).
+Local Notation eff_of := (eff_of is_shared eff).
+Local Notation justified := (justified perm matches valid_filter is_shared eff).
+Local Notation deliveries_ok := (deliveries_ok perm matches valid_filter is_shared eff).
+Local Notation matching := (matching matches is_shared eff).
+Local Notation fanout := (fanout perm matches is_shared eff).
+Local Notation route := (route perm matches is_shared eff).
+Local Notation publish_will := (publish_will perm matches is_shared eff).
+Local Notation send_will := (send_will perm matches is_shared eff).
+Local Notation close_with_will := (close_with_will perm matches is_shared eff).
+Local Notation sub_codes := (sub_codes perm valid_filter is_shared).
+Local Notation replay_one := (replay_one perm matches is_shared).
+Local Notation replay_granted := (replay_granted perm matches is_shared).
+Local Notation fire := (fire perm matches is_shared eff).
+Local Notation astep := (astep perm matches valid_filter is_shared eff).
+Local Notation arun := (arun perm matches valid_filter is_shared eff).
+
+Definition oracle := bytes -> client -> bool.
 
 (* ---------- the invariant ---------- *)
-Definition sub_ok (e : client * (bytes * N)) : Prop :=
-  valid_filter (fst (snd e)) = true /\ perm (fst e) (fst (snd e)) false = true.
+Definition sub_ok (e : subent) : Prop :=
+  valid_filter (se_filter e) = true /\ perm (fst e) (se_filter e) false = true.
 Definition queued_ok (c : client) (m : msg) : Prop :=
   perm c (m_topic m) false = true /\ msg_ok m /\ justified c m.
 Definition will_ok (w : option will) : Prop :=
   match w with Some w' => valid_pub_topic (w_topic w') = true | None => True end.
+(* every inbound alias of a connection is bound to a topic its client may publish to *)
+Definition alias_ok (c : client) (e : N * bytes) : Prop :=
+  perm c (snd e) true = true /\ valid_pub_topic (snd e) = true.
 Definition sess_ok (e : client * sess) : Prop :=
-  Forall (queued_ok (fst e)) (c_queue (snd e)) /\ will_ok (c_will (snd e)).
+  Forall (queued_ok (fst e)) (c_queue (snd e)) /\ will_ok (c_will (snd e)) /\
+  Forall (alias_ok (fst e)) (c_alias (snd e)).
 Definition ret_ok (e : bytes * msg) : Prop := fst e = m_topic (snd e) /\ msg_ok (snd e).
 Definition del_ok (e : client * msg) : Prop := msg_ok (snd e).
 
@@ -79,37 +99,48 @@ Proof.
   exfalso. apply (Hx m). rewrite E. reflexivity.
 Qed.
 
-Lemma matching_justifies (subs : list (client * (bytes * N))) (c : client) (t : bytes) e es :
-  Forall sub_ok subs -> matching matches subs c t = e :: es ->
-  exists f, valid_filter f = true /\ perm c f false = true /\ matches f t = true.
+Lemma deliveries_ok_acks (cl : client) (l : list N) (f : N -> aev) :
+  (forall p m, f p <> ADeliver m) -> deliveries_ok (map (fun p => (cl, f p)) l).
 Proof.
-  intros Hs Hm.
-  assert (Hin : In e (matching matches subs c t)) by (rewrite Hm; left; reflexivity).
-  unfold matching in Hin. apply filter_In in Hin. destruct Hin as [Hin Hc].
-  apply andb_prop in Hc. destruct Hc as [Hc1 Hc2]. apply beq_bytes_true in Hc1.
-  rewrite Forall_forall in Hs. destruct (Hs e Hin) as [Hv Hp].
-  exists (fst (snd e)). rewrite <- Hc1. auto.
+  intros Hf c m Hin. apply in_map_iff in Hin. destruct Hin as (p & E & _). injection E as _ E.
+  exfalso. apply (Hf p m E).
 Qed.
 
-Lemma fanout_ok (subs : list (client * (bytes * N))) (m : msg) (cls : list (client * sess)) :
+Lemma matching_justifies (sel : oracle) (subs : list subent) (c : client) (t : bytes) e es :
+  Forall sub_ok subs -> matching sel subs c t = e :: es ->
+  exists f, valid_filter f = true /\ perm c f false = true /\ matches (eff_of f) t = true.
+Proof.
+  intros Hs Hm.
+  assert (Hin : In e (matching sel subs c t)) by (rewrite Hm; left; reflexivity).
+  unfold Acl.matching in Hin. apply filter_In in Hin. destruct Hin as [Hin Hc].
+  apply andb_prop in Hc. destruct Hc as [Hc1 Hc2]. apply beq_bytes_true in Hc1.
+  rewrite Forall_forall in Hs. destruct (Hs e Hin) as [Hv Hp].
+  exists (se_filter e). rewrite <- Hc1. split; [exact Hv|]. split; [exact Hp|].
+  unfold sub_hits in Hc2. unfold Acl.eff_of. destruct (is_shared (se_filter e)); [|exact Hc2].
+  apply andb_prop in Hc2. tauto.
+Qed.
+
+Lemma fanout_ok (sel : oracle) (subs : list subent) (m : msg) (cls : list (client * sess)) :
   Forall sub_ok subs -> msg_ok m -> Forall sess_ok cls ->
-  Forall sess_ok (fst (fanout subs m cls)) /\ deliveries_ok (snd (fanout subs m cls)).
+  Forall sess_ok (fst (fanout sel subs m cls)) /\ deliveries_ok (snd (fanout sel subs m cls)).
 Proof.
   intros Hs Hm. induction 1 as [|[c s] r Hx Hr IH]; cbn [Acl.fanout].
   - split; [constructor | apply deliveries_ok_nil].
-  - destruct (fanout subs m r) as [r' evs]. cbn [fst snd] in IH. destruct IH as [IH1 IH2].
-    destruct (matching matches subs c (m_topic m)) as [|e es] eqn:Em.
+  - destruct (fanout sel subs m r) as [r' evs]. cbn [fst snd] in IH. destruct IH as [IH1 IH2].
+    destruct (matching sel subs c (m_topic m)) as [|e es] eqn:Em.
     + cbn [fst snd]. split; [constructor; assumption | assumption].
-    + destruct (perm c (m_topic m) false) eqn:Hp; cbn [negb].
+    + destruct (existsb se_nl (e :: es) && origin_is c m).
+      { cbn [fst snd]. split; [constructor; assumption | assumption]. }
+      destruct (perm c (m_topic m) false) eqn:Hp; cbn [negb].
       2:{ cbn [fst snd]. split; [constructor; assumption | assumption]. }
-      pose proof (matching_justifies subs c (m_topic m) e es Hs Em) as Hj.
+      pose proof (matching_justifies sel subs c (m_topic m) e es Hs Em) as Hj.
       destruct (c_online s).
       * cbn [fst snd]. split; [constructor; assumption|].
         intros c' m' [E|Hin]; [|apply IH2; exact Hin].
         injection E as <- <-. repeat split; assumption.
       * destruct (0 <? N.min (m_qos m) (maxq (e :: es))); cbn [fst snd].
         -- split; [|assumption]. constructor; [|assumption].
-           destruct Hx as [Hq Hw]. split; [|exact Hw]. cbn [fst snd enqueue c_queue] in *.
+           destruct Hx as (Hq & Hw & Ha). split; [|split; [exact Hw | exact Ha]]. cbn [fst snd enqueue c_queue] in *.
            apply Forall_app. split; [exact Hq|]. constructor; [|constructor]. repeat split; assumption.
         -- split; [constructor; assumption | assumption].
 Qed.
@@ -121,11 +152,12 @@ Proof.
   - constructor; [split; [reflexivity | exact Hm] | apply Forall_remove_key, Hr].
 Qed.
 
-Lemma route_ok (st : ast) (m : msg) : inv st -> msg_ok m -> inv (fst (route st m)) /\ deliveries_ok (snd (route st m)).
+Lemma route_ok (sel : oracle) (st : ast) (m : msg) :
+  inv st -> msg_ok m -> inv (fst (route sel st m)) /\ deliveries_ok (snd (route sel st m)).
 Proof.
   intros (Hs & Hr & Hc & Hd) Hm. unfold Acl.route.
-  pose proof (fanout_ok (a_subs st) m (a_cl st) Hs Hm Hc) as Hf.
-  destruct (fanout (a_subs st) m (a_cl st)) as [cls' evs]. cbn [fst snd] in *. destruct Hf as [Hf1 Hf2].
+  pose proof (fanout_ok sel (a_subs st) m (a_cl st) Hs Hm Hc) as Hf.
+  destruct (fanout sel (a_subs st) m (a_cl st)) as [cls' evs]. cbn [fst snd] in *. destruct Hf as [Hf1 Hf2].
   split; [|exact Hf2]. repeat split; cbn; try assumption.
   destruct (m_retain m); [apply retain_ok; assumption | assumption].
 Qed.
@@ -137,17 +169,16 @@ Proof.
   destruct (c_persist s).
   - repeat split; cbn; try assumption.
     constructor; [|apply Forall_remove_key, Hc].
-    apply assoc_In in Ea. rewrite Forall_forall in Hc. destruct (Hc _ Ea) as [Hq _].
-    split; cbn; [exact Hq | exact I].
+    apply assoc_In in Ea. rewrite Forall_forall in Hc. destruct (Hc _ Ea) as (Hq & _).
+    split; cbn; [exact Hq | split; [exact I | constructor]].
   - repeat split; cbn; try assumption; apply Forall_remove_key; assumption.
 Qed.
 
-Lemma send_will_ok (st : ast) (cl : client) :
-  inv st -> inv (fst (send_will st cl)) /\ deliveries_ok (snd (send_will st cl)).
+Lemma publish_will_ok (sel : oracle) (st : ast) (cl : client) (w : option will) :
+  inv st -> inv (fst (publish_will sel st cl w)) /\ deliveries_ok (snd (publish_will sel st cl w)).
 Proof.
-  intro Hi. unfold Acl.send_will.
-  destruct (assoc cl (a_cl st)) as [s|]; [|split; [exact Hi | apply deliveries_ok_nil]].
-  destruct (c_will s) as [w|]; [|split; [exact Hi | apply deliveries_ok_nil]].
+  intro Hi. unfold Acl.publish_will.
+  destruct w as [w|]; [|split; [exact Hi | apply deliveries_ok_nil]].
   destruct (valid_pub_topic (w_topic w) && perm cl (w_topic w) true) eqn:Ec;
     [|split; [exact Hi | apply deliveries_ok_nil]].
   apply andb_prop in Ec. destruct Ec as [Ev Ep].
@@ -159,73 +190,90 @@ Proof.
   - apply route_ok; assumption.
 Qed.
 
-Lemma close_with_will_ok (st : ast) (cl : client) :
-  inv st -> inv (fst (close_with_will st cl)) /\ deliveries_ok (snd (close_with_will st cl)).
+Lemma send_will_ok (sel : oracle) (st : ast) (cl : client) :
+  inv st -> inv (fst (send_will sel st cl)) /\ deliveries_ok (snd (send_will sel st cl)).
 Proof.
-  intro Hi. unfold Acl.close_with_will. pose proof (send_will_ok st cl Hi) as H.
-  destruct (send_will st cl) as [st1 evs]. cbn [fst snd] in *. destruct H as [H1 H2].
+  intro Hi. unfold Acl.send_will.
+  destruct (assoc cl (a_cl st)) as [s|]; [apply publish_will_ok, Hi | split; [exact Hi | apply deliveries_ok_nil]].
+Qed.
+
+Lemma close_with_will_ok (sel : oracle) (st : ast) (cl : client) :
+  inv st -> inv (fst (close_with_will sel st cl)) /\ deliveries_ok (snd (close_with_will sel st cl)).
+Proof.
+  intro Hi. unfold Acl.close_with_will. pose proof (send_will_ok sel st cl Hi) as H.
+  destruct (send_will sel st cl) as [st1 evs]. cbn [fst snd] in *. destruct H as [H1 H2].
   split; [apply end_session_ok, H1|].
   apply deliveries_ok_cons_other; [cbn; discriminate | exact H2].
 Qed.
 
-Lemma sub_codes_granted (ver : N) (ob : bool) (cl : client) (fs : list (bytes * N)) :
-  forall f q, In (f, q) (snd (sub_codes ver ob cl fs)) -> valid_filter f = true /\ perm cl f false = true.
+Lemma sub_codes_granted (ver : N) (ob : bool) (cl : client) (fs : list (bytes * (N * bool))) :
+  forall f o, In (f, o) (snd (sub_codes ver ob cl fs)) -> valid_filter f = true /\ perm cl f false = true.
 Proof.
-  induction fs as [|[f0 q0] r IH]; cbn [Acl.sub_codes]; [intros f q []|].
+  induction fs as [|[f0 [q0 nl0]] r IH]; cbn [Acl.sub_codes]; [intros f o []|].
   destruct (sub_codes ver ob cl r) as [codes gr]. cbn [snd] in IH.
   destruct (valid_filter f0) eqn:Ev; cbn [negb]; [|exact IH].
+  destruct (nl0 && is_shared f0); [exact IH|].
   destruct (perm cl f0 false) eqn:Ep; cbn [negb]; [|exact IH].
-  cbn [snd]. intros f q [E|Hin]; [injection E as <- <-; split; assumption | apply IH with q; exact Hin].
+  cbn [snd]. intros f o [E|Hin]; [injection E as <- <-; split; assumption | apply IH with o; exact Hin].
 Qed.
 
-Lemma add_sub_ok (cl : client) (gr : list (bytes * N)) (subs : list (client * (bytes * N))) :
-  Forall sub_ok subs -> (forall f q, In (f, q) gr -> valid_filter f = true /\ perm cl f false = true) ->
+Lemma add_sub_ok (cl : client) (gr : list (bytes * (N * bool))) (subs : list subent) :
+  Forall sub_ok subs -> (forall f o, In (f, o) gr -> valid_filter f = true /\ perm cl f false = true) ->
   Forall sub_ok (add_sub cl gr subs).
 Proof.
-  revert subs. induction gr as [|[f q] r IH]; intros subs Hs Hg; cbn [add_sub]; [exact Hs|].
+  revert subs. induction gr as [|[f o] r IH]; intros subs Hs Hg; cbn [add_sub]; [exact Hs|].
   apply IH.
-  - constructor; [apply (Hg f q); left; reflexivity | apply Forall_filter, Hs].
-  - intros f' q' Hin. apply (Hg f' q'). right; exact Hin.
+  - constructor; [apply (Hg f o); left; reflexivity | apply Forall_filter, Hs].
+  - intros f' o' Hin. apply (Hg f' o'). right; exact Hin.
 Qed.
 
-Lemma replay_one_ok (cl : client) (f : bytes) (ret : list (bytes * msg)) :
-  valid_filter f = true -> perm cl f false = true -> Forall ret_ok ret -> deliveries_ok (replay_one cl f ret).
+Lemma replay_one_ok (cl : client) (f : bytes) (nl : bool) (ret : list (bytes * msg)) :
+  valid_filter f = true -> perm cl f false = true -> Forall ret_ok ret -> deliveries_ok (replay_one cl f nl ret).
 Proof.
-  intros Hv Hp Hr c m Hin. unfold Acl.replay_one in Hin. apply in_map_iff in Hin.
+  intros Hv Hp Hr c m Hin. unfold Acl.replay_one in Hin.
+  destruct (is_shared f) eqn:Esh; [destruct Hin|].
+  apply in_map_iff in Hin.
   destruct Hin as (e & E & Hin). injection E as <- <-. apply filter_In in Hin. destruct Hin as [Hin Hc].
-  apply andb_prop in Hc. destruct Hc as [Hm Hrd].
+  apply andb_prop in Hc. destruct Hc as [Hc Hrd]. apply andb_prop in Hc. destruct Hc as [Hm _].
   rewrite Forall_forall in Hr. destruct (Hr e Hin) as [Hk Hok]. rewrite Hk in Hm, Hrd.
-  split; [exact Hrd|]. split; [exact Hok|]. exists f. auto.
+  split; [exact Hrd|]. split; [exact Hok|]. exists f. unfold Acl.eff_of. rewrite Esh. auto.
 Qed.
 
-Lemma replay_granted_ok (cl : client) (gr : list (bytes * N)) (ret : list (bytes * msg)) :
-  (forall f q, In (f, q) gr -> valid_filter f = true /\ perm cl f false = true) -> Forall ret_ok ret ->
+Lemma replay_granted_ok (cl : client) (gr : list (bytes * (N * bool))) (ret : list (bytes * msg)) :
+  (forall f o, In (f, o) gr -> valid_filter f = true /\ perm cl f false = true) -> Forall ret_ok ret ->
   deliveries_ok (replay_granted cl gr ret).
 Proof.
-  intros Hg Hr. induction gr as [|[f q] r IH]; cbn; [apply deliveries_ok_nil|].
+  intros Hg Hr. induction gr as [|[f o] r IH]; cbn; [apply deliveries_ok_nil|].
   apply deliveries_ok_app.
-  - destruct (Hg f q (or_introl eq_refl)) as [Hv Hp]. apply replay_one_ok; assumption.
-  - apply IH. intros f' q' Hin. apply (Hg f' q'). right; exact Hin.
+  - destruct (Hg f o (or_introl eq_refl)) as [Hv Hp]. apply replay_one_ok; assumption.
+  - apply IH. intros f' o' Hin. apply (Hg f' o'). right; exact Hin.
 Qed.
 
-Lemma fire_ok (ds : list (client * msg)) : forall st, inv st -> Forall del_ok ds ->
-  inv (fst (fire st ds)) /\ deliveries_ok (snd (fire st ds)).
+Lemma clear_will_ok (cls : list (client * sess)) (c : client) : Forall sess_ok cls -> Forall sess_ok (clear_will cls c).
+Proof.
+  induction 1 as [|[k s] l Hx Hl IH]; cbn; [constructor|]. constructor; [|exact IH].
+  destruct (beq_bytes k c); [|exact Hx].
+  destruct Hx as (Hq & _ & Ha). split; [exact Hq | split; [exact I | exact Ha]].
+Qed.
+
+Lemma fire_ok (sel : oracle) (ds : list (client * msg)) : forall st, inv st -> Forall del_ok ds ->
+  inv (fst (fire sel st ds)) /\ deliveries_ok (snd (fire sel st ds)).
 Proof.
   induction ds as [|[c m] r IH]; intros st Hi Hd; cbn [Acl.fire].
   - split; [exact Hi | apply deliveries_ok_nil].
   - inversion Hd as [|x l Hm Hr]; subst. cbn in Hm.
     destruct Hi as (Hs & Hrt & Hc & Hdl).
-    pose proof (fanout_ok (a_subs st) m (a_cl st) Hs Hm Hc) as Hf.
-    destruct (fanout (a_subs st) m (a_cl st)) as [cls' evs]. cbn [fst snd] in Hf. destruct Hf as [Hf1 Hf2].
+    pose proof (fanout_ok sel (a_subs st) m (a_cl st) Hs Hm Hc) as Hf.
+    destruct (fanout sel (a_subs st) m (a_cl st)) as [cls' evs]. cbn [fst snd] in Hf. destruct Hf as [Hf1 Hf2].
     set (ret' := match assoc c (a_cl st) with
                  | Some _ => if m_retain m then retain (a_ret st) m else a_ret st
                  | None => a_ret st end).
     assert (Hret : Forall ret_ok ret').
     { unfold ret'. destruct (assoc c (a_cl st)); [|exact Hrt].
       destruct (m_retain m); [apply retain_ok; assumption | exact Hrt]. }
-    specialize (IH (mkAst cls' (a_subs st) ret' (a_delayed st))).
-    destruct (fire (mkAst cls' (a_subs st) ret' (a_delayed st)) r) as [st' evs'].
-    cbn [fst snd] in *. destruct IH as [IH1 IH2]; [repeat split; cbn; assumption | exact Hr |].
+    specialize (IH (mkAst (clear_will cls' c) (a_subs st) ret' (a_delayed st))).
+    destruct (fire sel (mkAst (clear_will cls' c) (a_subs st) ret' (a_delayed st)) r) as [st' evs'].
+    cbn [fst snd] in *. destruct IH as [IH1 IH2]; [repeat split; cbn; try assumption; apply clear_will_ok, Hf1 | exact Hr |].
     split; [exact IH1 | apply deliveries_ok_app; assumption].
 Qed.
 
@@ -235,29 +283,53 @@ Proof.
   destruct (c_online s'); [|discriminate]. intro H. injection H as <-. apply assoc_In, E.
 Qed.
 
-Theorem astep_ok (ob : bool) (st : ast) (o : aop) :
-  inv st -> inv (fst (astep ob st o)) /\ deliveries_ok (snd (astep ob st o)).
+Lemma set_sess_ok (st : ast) (cl : client) (s : sess) : inv st -> sess_ok (cl, s) -> inv (set_sess st cl s).
 Proof.
-  intro Hi. destruct o as [cl ver clean w|cl|cl|cl|cl topic payload qos rt pid|cl pid fs|topic payload rt|]; cbn [Acl.astep].
-  - (* connect *)
+  intros (Hs & Hr & Hc & Hd) Hx. repeat split; cbn; try assumption.
+  constructor; [exact Hx | apply Forall_remove_key, Hc].
+Qed.
+
+Theorem astep_ok (ob : bool) (sel : oracle) (st : ast) (o : aop) :
+  inv st -> inv (fst (astep ob sel st o)) /\ deliveries_ok (snd (astep ob sel st o)).
+Proof.
+  intro Hi.
+  destruct o as [cl ver clean w|cl|cl|cl|cl topic payload qos rt pid alias|cl pid|cl pid fs|topic payload rt| |];
+    cbn [Acl.astep].
+  - (* connect, also over a live connection *)
     destruct (match w with Some w' => negb (valid_pub_topic (w_topic w')) | None => false end) eqn:Ew.
     { cbn [fst snd]. split; [exact Hi|].
       apply deliveries_ok_cons_other; [cbn; discriminate|].
       apply deliveries_ok_cons_other; [cbn; discriminate | apply deliveries_ok_nil]. }
-    destruct Hi as (Hs & Hr & Hc & Hd). cbn [fst snd]. split.
-    + repeat split; cbn [a_subs a_ret a_cl a_delayed].
-      * destruct (match assoc cl (a_cl st) with Some _ => negb clean | None => false end);
-          [exact Hs | apply Forall_remove_key, Hs].
-      * exact Hr.
-      * constructor; [|apply Forall_remove_key, Hc]. split; cbn; [constructor|].
+    set (sp := match assoc cl (a_cl st) with
+               | Some s => negb clean && negb (negb (c_persist s) && (c_ver s <? 5)) | None => false end).
+    set (queue := match assoc cl (a_cl st) with Some s => if sp then c_queue s else [] | None => [] end).
+    set (inq2 := match assoc cl (a_cl st) with Some s => if sp then c_inq2 s else [] | None => [] end).
+    set (st1 := mkAst ((cl, mkC ver true (negb clean) w [] [] inq2) :: remove_key cl (a_cl st))
+                      (if sp then a_subs st else remove_key cl (a_subs st)) (a_ret st) (remove_key cl (a_delayed st))).
+    set (evs1 := (cl, AConnack true sp) :: map (fun m => (cl, ADeliver m)) queue
+                 ++ map (fun pid => (cl, AAck T_PUBREC pid 0)) inq2).
+    assert (H1 : inv st1).
+    { destruct Hi as (Hs & Hr & Hc & Hd). repeat split; cbn [st1 a_subs a_ret a_cl a_delayed].
+      - destruct sp; [exact Hs | apply Forall_remove_key, Hs].
+      - exact Hr.
+      - constructor; [|apply Forall_remove_key, Hc]. split; cbn; [constructor|]. split; [|constructor].
         destruct w as [w'|]; cbn; [|exact I]. cbn in Ew. destruct (valid_pub_topic (w_topic w')); [reflexivity | discriminate].
-      * apply Forall_remove_key, Hd.
-    + apply deliveries_ok_cons_other; [cbn; discriminate|].
-      destruct (assoc cl (a_cl st)) as [s|] eqn:Ea; [|apply deliveries_ok_nil].
-      destruct (negb clean); [|apply deliveries_ok_nil].
-      apply assoc_In in Ea. rewrite Forall_forall in Hc. destruct (Hc _ Ea) as [Hq _]. cbn in Hq.
-      intros c m Hin. apply in_map_iff in Hin. destruct Hin as (m' & E & Hin). injection E as <- <-.
-      rewrite Forall_forall in Hq. apply Hq, Hin.
+      - apply Forall_remove_key, Hd. }
+    assert (H2 : deliveries_ok evs1).
+    { unfold evs1. apply deliveries_ok_cons_other; [cbn; discriminate|]. apply deliveries_ok_app.
+      - unfold queue. destruct (assoc cl (a_cl st)) as [s|] eqn:Ea; [|apply deliveries_ok_nil].
+        destruct sp; [|apply deliveries_ok_nil].
+        destruct Hi as (_ & _ & Hc & _).
+        apply assoc_In in Ea. rewrite Forall_forall in Hc. destruct (Hc _ Ea) as [Hq _]. cbn in Hq.
+        intros c m Hin. apply in_map_iff in Hin. destruct Hin as (m' & E & Hin). injection E as <- <-.
+        rewrite Forall_forall in Hq. apply Hq, Hin.
+      - apply deliveries_ok_acks. intros; discriminate. }
+    destruct (assoc cl (a_cl st)) as [s|] eqn:Ea; [|split; assumption].
+    destruct (c_online s); [|split; assumption].
+    pose proof (publish_will_ok sel st1 cl (c_will s) H1) as H.
+    destruct (publish_will sel st1 cl (c_will s)) as [st2 evs2]. cbn [fst snd] in *. destruct H as [H3 H4].
+    split; [exact H3|]. apply deliveries_ok_app; [exact H2|].
+    apply deliveries_ok_cons_other; [cbn; discriminate | exact H4].
   - (* DISCONNECT *)
     destruct (online st cl); [|split; [exact Hi | apply deliveries_ok_nil]].
     cbn [fst snd]. split.
@@ -268,9 +340,9 @@ Proof.
     destruct (online st cl); [apply close_with_will_ok, Hi | split; [exact Hi | apply deliveries_ok_nil]].
   - (* network close *)
     destruct (online st cl); [apply close_with_will_ok, Hi | split; [exact Hi | apply deliveries_ok_nil]].
-  - (* publish *)
-    destruct (online st cl) as [s|]; [|split; [exact Hi | apply deliveries_ok_nil]].
-    destruct (has_wild topic); [apply close_with_will_ok, Hi|].
+  - (* publish, possibly through a topic alias *)
+    destruct (online st cl) as [s|] eqn:Eo; [|split; [exact Hi | apply deliveries_ok_nil]].
+    destruct (has_wild topic || (nilb topic && (alias =? 0))); [apply close_with_will_ok, Hi|].
     destruct (valid_pub_topic topic) eqn:Ev; cbn [negb].
     2:{ cbn [fst snd]. split; [exact Hi|]. destruct (qos =? 0); [apply deliveries_ok_nil|].
         apply deliveries_ok_cons_other; [cbn; discriminate | apply deliveries_ok_nil]. }
@@ -279,13 +351,45 @@ Proof.
         destruct (negb (c_ver s =? 5)); [apply close_with_will_ok, Hi|].
         cbn [fst snd]. split; [exact Hi|].
         apply deliveries_ok_cons_other; [cbn; discriminate | apply deliveries_ok_nil]. }
-    assert (Hm : msg_ok (mkM (Some cl) topic payload qos rt)) by (cbn; split; assumption).
-    pose proof (route_ok st _ Hi Hm) as H.
-    destruct (route st (mkM (Some cl) topic payload qos rt)) as [st' evs]. cbn [fst snd] in *.
+    destruct ((0 <? qos) && memN pid (c_inq2 s)).
+    { cbn [fst snd]. split; [exact Hi|].
+      apply deliveries_ok_cons_other; [cbn; discriminate | apply deliveries_ok_nil]. }
+    (* the session's own invariant *)
+    pose proof (online_In st cl s Eo) as Hin.
+    assert (Hsess : sess_ok (cl, s)).
+    { destruct Hi as (_ & _ & Hc & _). rewrite Forall_forall in Hc. apply (Hc _ Hin). }
+    destruct Hsess as (Hq & Hw & Ha). cbn [fst snd] in Hq, Hw, Ha.
+    (* the resolved topic is one the client may publish to *)
+    set (resolved := if alias =? 0 then Some topic else if nilb topic then alias_get alias (c_alias s) else Some topic).
+    assert (Hres : forall t, resolved = Some t -> perm cl t true = true /\ valid_pub_topic t = true).
+    { unfold resolved. intros t. destruct (alias =? 0); [intro E; injection E as <-; split; assumption|].
+      destruct (nilb topic); [|intro E; injection E as <-; split; assumption].
+      intro E. apply alias_get_In in E. rewrite Forall_forall in Ha. apply (Ha _ E). }
+    destruct resolved as [t|]; [|apply close_with_will_ok, Hi].
+    destruct (Hres t eq_refl) as [Hpt Hvt].
+    set (al' := if (0 <? alias) && negb (nilb topic) then alias_set alias topic (c_alias s) else c_alias s).
+    set (q2' := if qos =? 2 then pid :: c_inq2 s else c_inq2 s).
+    assert (Hal : Forall (alias_ok cl) al').
+    { unfold al'. destruct ((0 <? alias) && negb (nilb topic)); [|exact Ha].
+      unfold alias_set. constructor; [split; cbn; assumption | apply Forall_filter, Ha]. }
+    assert (H0 : inv (set_sess st cl (mkC (c_ver s) true (c_persist s) (c_will s) (c_queue s) al' q2'))).
+    { apply set_sess_ok; [exact Hi|]. split; cbn; [exact Hq | split; assumption]. }
+    assert (Hm : msg_ok (mkM (Some cl) t payload qos rt)) by (cbn; split; assumption).
+    pose proof (route_ok sel _ _ H0 Hm) as H.
+    destruct (route sel (set_sess st cl (mkC (c_ver s) true (c_persist s) (c_will s) (c_queue s) al' q2'))
+                    (mkM (Some cl) t payload qos rt)) as [st' evs]. cbn [fst snd] in *.
     destruct H as [H1 H2]. split; [exact H1|].
     apply deliveries_ok_app; [|exact H2].
     destruct (qos =? 0); [apply deliveries_ok_nil|].
     apply deliveries_ok_cons_other; [cbn; discriminate | apply deliveries_ok_nil].
+  - (* PUBREL *)
+    destruct (online st cl) as [s|] eqn:Eo; [|split; [exact Hi | apply deliveries_ok_nil]].
+    destruct (memN pid (c_inq2 s)); cbn [fst snd].
+    + split; [|apply deliveries_ok_cons_other; [cbn; discriminate | apply deliveries_ok_nil]].
+      apply set_sess_ok; [exact Hi|].
+      pose proof (online_In st cl s Eo) as Hin. destruct Hi as (_ & _ & Hc & _).
+      rewrite Forall_forall in Hc. destruct (Hc _ Hin) as (Hq & Hw & Ha). split; cbn; [exact Hq | split; assumption].
+    + split; [exact Hi | apply deliveries_ok_cons_other; [cbn; discriminate | apply deliveries_ok_nil]].
   - (* subscribe *)
     destruct (online st cl) as [s|]; [|split; [exact Hi | apply deliveries_ok_nil]].
     pose proof (sub_codes_granted (c_ver s) ob cl fs) as Hg.
@@ -296,18 +400,21 @@ Proof.
   - (* inline publish *)
     apply route_ok; [exact Hi | exact I].
   - (* will tick *)
-    pose proof (fire_ok (a_delayed st) st Hi) as H.
+    pose proof (fire_ok sel (a_delayed st) st Hi) as H.
     destruct Hi as (Hs & Hr & Hc & Hd). specialize (H Hd).
-    destruct (fire st (a_delayed st)) as [st' evs]. cbn [fst snd] in *. destruct H as [(Hs' & Hr' & Hc' & Hd') H2].
+    destruct (fire sel st (a_delayed st)) as [st' evs]. cbn [fst snd] in *. destruct H as [(Hs' & Hr' & Hc' & Hd') H2].
     split; [|exact H2]. repeat split; cbn; try assumption. constructor.
+  - (* session expiry *)
+    cbn [fst snd]. split; [|apply deliveries_ok_nil].
+    destruct Hi as (Hs & Hr & Hc & Hd). repeat split; cbn; try assumption; apply Forall_filter; assumption.
 Qed.
 
-Theorem arun_ok (ob : bool) (ops : list aop) : forall st, inv st ->
+Theorem arun_ok (ob : bool) (ops : list (oracle * aop)) : forall st, inv st ->
   inv (fst (arun ob st ops)) /\ Forall deliveries_ok (snd (arun ob st ops)).
 Proof.
-  induction ops as [|o r IH]; intros st Hi; cbn [Acl.arun].
+  induction ops as [|[sel o] r IH]; intros st Hi; cbn [Acl.arun].
   - split; [exact Hi | constructor].
-  - pose proof (astep_ok ob st o Hi) as H. destruct (astep ob st o) as [st1 evs]. cbn [fst snd] in H.
+  - pose proof (astep_ok ob sel st o Hi) as H. destruct (astep ob sel st o) as [st1 evs]. cbn [fst snd] in H.
     destruct H as [H1 H2]. specialize (IH st1 H1). destruct (arun ob st1 r) as [st2 rest]. cbn [fst snd] in *.
     destruct IH as [IH1 IH2]. split; [exact IH1 | constructor; assumption].
 Qed.
@@ -326,108 +433,119 @@ Proof.
   rewrite Forall_forall in H. apply H, Hin.
 Qed.
 
-(* read: nobody receives a message on a topic it may not read (live fan-out, retained replay, resend) *)
+(* read: nobody receives a message on a topic it may not read (live fan-out incl. share groups, retained
+   replay, resend to a resumed or taken-over session) *)
 Theorem read_enforced (ob : bool) (evs : list (client * aev)) (c : client) (m : msg) :
   emitted ob evs -> In (c, ADeliver m) evs -> perm c (m_topic m) false = true.
 Proof. intros He Hin. apply (emitted_ok ob evs He c m Hin). Qed.
 
 (* write: whatever is delivered, retained, kept for an offline session or waiting as a delayed will and
-   stems from a non-inline client was published with write permission on a valid non-$SYS topic name *)
+   stems from a non-inline client was published with write permission on a valid non-$SYS topic name; and
+   every topic alias of a connection is bound to such a topic (no bypass through an alias) *)
 Theorem write_enforced (ob : bool) :
   (forall evs c m, emitted ob evs -> In (c, ADeliver m) evs -> msg_ok m) /\
   (forall st, reachable ob st ->
      (forall t m, In (t, m) (a_ret st) -> t = m_topic m /\ msg_ok m) /\
      (forall c s m, In (c, s) (a_cl st) -> In m (c_queue s) -> msg_ok m /\ perm c (m_topic m) false = true) /\
-     (forall c m, In (c, m) (a_delayed st) -> msg_ok m)).
+     (forall c m, In (c, m) (a_delayed st) -> msg_ok m) /\
+     (forall c s a t, In (c, s) (a_cl st) -> In (a, t) (c_alias s) -> perm c t true = true /\ valid_pub_topic t = true)).
 Proof.
   split.
   - intros evs c m He Hin. apply (emitted_ok ob evs He c m Hin).
-  - intros st Hr. destruct (reachable_inv ob st Hr) as (Hs & Hrt & Hc & Hd). split; [|split].
+  - intros st Hr. destruct (reachable_inv ob st Hr) as (Hs & Hrt & Hc & Hd). split; [|split; [|split]].
     + intros t m Hin. rewrite Forall_forall in Hrt. apply (Hrt _ Hin).
     + intros c s m Hin Hq. rewrite Forall_forall in Hc. destruct (Hc _ Hin) as [Hqs _].
       rewrite Forall_forall in Hqs. destruct (Hqs _ Hq) as (A & B & _). split; assumption.
     + intros c m Hin. rewrite Forall_forall in Hd. apply (Hd _ Hin).
+    + intros c s a t Hin Ha. rewrite Forall_forall in Hc. destruct (Hc _ Hin) as (_ & _ & Hal).
+      rewrite Forall_forall in Hal. apply (Hal _ Ha).
 Qed.
 
 (* the reason codes of a SUBSCRIBE, filter by filter *)
-Lemma sub_codes_nth (ver : N) (ob : bool) (cl : client) (fs : list (bytes * N)) :
+Definition code_of (ver : N) (ob : bool) (cl : client) (f : bytes) (q : N) (nl : bool) : N :=
+  if negb (valid_filter f) then v3map ver 143
+  else if nl && is_shared f then v3map ver 130
+  else if negb (perm cl f false) then v3map ver (if ob then 128 else 135) else v3map ver q.
+
+Lemma sub_codes_nth (ver : N) (ob : bool) (cl : client) (fs : list (bytes * (N * bool))) :
   length (fst (sub_codes ver ob cl fs)) = length fs /\
-  forall i f q, nth_error fs i = Some (f, q) ->
-    nth_error (fst (sub_codes ver ob cl fs)) i =
-      Some (if negb (valid_filter f) then v3map ver 143
-            else if negb (perm cl f false) then v3map ver (if ob then 128 else 135) else v3map ver q).
+  forall i f q nl, nth_error fs i = Some (f, (q, nl)) ->
+    nth_error (fst (sub_codes ver ob cl fs)) i = Some (code_of ver ob cl f q nl).
 Proof.
-  induction fs as [|[f0 q0] r [IHl IH]]; cbn [Acl.sub_codes].
-  - split; [reflexivity | intros [|i] f q H; discriminate].
+  induction fs as [|[f0 [q0 nl0]] r [IHl IH]]; cbn [Acl.sub_codes].
+  - split; [reflexivity | intros [|i] f q nl H; discriminate].
   - destruct (sub_codes ver ob cl r) as [codes gr]. cbn [fst] in *.
-    assert (Hhd : forall c g, (if negb (valid_filter f0) then (v3map ver 143 :: codes, gr)
+    assert (Hhd : fst (if negb (valid_filter f0) then (v3map ver 143 :: codes, gr)
+                        else if nl0 && is_shared f0 then (v3map ver 130 :: codes, gr)
                         else if negb (perm cl f0 false) then (v3map ver (if ob then 128 else 135) :: codes, gr)
-                        else (v3map ver q0 :: codes, (f0, q0) :: gr)) = (c, g) ->
-              c = (if negb (valid_filter f0) then v3map ver 143
-                   else if negb (perm cl f0 false) then v3map ver (if ob then 128 else 135) else v3map ver q0) :: codes).
-    { intros c g. destruct (negb (valid_filter f0)); [intro E; injection E as <- _; reflexivity|].
-      destruct (negb (perm cl f0 false)); intro E; injection E as <- _; reflexivity. }
-    destruct (if negb (valid_filter f0) then _ else _) as [c g] eqn:E. rewrite (Hhd c g eq_refl). cbn [fst].
-    split; [cbn; lia|].
-    intros [|i] f q H; cbn in H |- *; [injection H as <- <-; reflexivity | apply IH, H].
+                        else (v3map ver q0 :: codes, (f0, (q0, nl0)) :: gr)) = code_of ver ob cl f0 q0 nl0 :: codes).
+    { unfold code_of. destruct (negb (valid_filter f0)); [reflexivity|].
+      destruct (nl0 && is_shared f0); [reflexivity|]. destruct (negb (perm cl f0 false)); reflexivity. }
+    rewrite Hhd. split; [cbn; lia|].
+    intros [|i] f q nl H; cbn in H |- *; [injection H as <- <- <-; reflexivity | apply IH, H].
 Qed.
 
-(* subscriptions: a denied filter is answered 0x87 (0x80 when obscured or MQTT 3), only valid permitted
-   filters are ever in the index, and every delivery rests on such a filter matching the topic *)
+(* subscriptions: a denied filter (the string the client sent, with its $share prefix if any) is
+   answered 0x87 (0x80 when obscured or MQTT 3), only valid permitted filters are ever in the index, and
+   every delivery rests on such a filter whose effective filter matches the topic *)
 Theorem sub_refused (ob : bool) :
-  (forall ver cl fs i f q, nth_error fs i = Some (f, q) -> valid_filter f = true -> perm cl f false = false ->
+  (forall ver cl fs i f q nl, nth_error fs i = Some (f, (q, nl)) -> valid_filter f = true -> nl && is_shared f = false ->
+     perm cl f false = false ->
      nth_error (fst (sub_codes ver ob cl fs)) i = Some (if (ver <? 5) || ob then 128 else 135)) /\
-  (forall st c f q, reachable ob st -> In (c, (f, q)) (a_subs st) -> valid_filter f = true /\ perm c f false = true) /\
+  (forall st c f o, reachable ob st -> In (c, (f, o)) (a_subs st) -> valid_filter f = true /\ perm c f false = true) /\
   (forall evs c m, emitted ob evs -> In (c, ADeliver m) evs ->
-     exists f, valid_filter f = true /\ perm c f false = true /\ matches f (m_topic m) = true).
+     exists f, valid_filter f = true /\ perm c f false = true /\ matches (eff_of f) (m_topic m) = true).
 Proof.
   split; [|split].
-  - intros ver cl fs i f q Hn Hv Hp. destruct (sub_codes_nth ver ob cl fs) as [_ H]. rewrite (H i f q Hn).
-    rewrite Hv, Hp. cbn [negb]. f_equal. unfold v3map. destruct ob; destruct (ver <? 5); reflexivity.
-  - intros st c f q Hr Hin. destruct (reachable_inv ob st Hr) as (Hs & _). rewrite Forall_forall in Hs.
+  - intros ver cl fs i f q nl Hn Hv Hnl Hp. destruct (sub_codes_nth ver ob cl fs) as [_ H]. rewrite (H i f q nl Hn).
+    unfold code_of. rewrite Hv, Hnl, Hp. cbn [negb]. f_equal. unfold v3map. destruct ob; destruct (ver <? 5); reflexivity.
+  - intros st c f o Hr Hin. destruct (reachable_inv ob st Hr) as (Hs & _). rewrite Forall_forall in Hs.
     apply (Hs _ Hin).
   - intros evs c m He Hin. apply (emitted_ok ob evs He c m Hin).
 Qed.
 
-(* $SYS: a client publish to a topic starting with $SYS changes nothing and reaches nobody *)
-Theorem sys_refused (ob : bool) (st : ast) (cl : client) (topic payload : bytes) (qos : N) (rt : bool) (pid : N) :
+(* $SYS: a client publish whose topic starts with $SYS changes nothing and reaches nobody *)
+Theorem sys_refused (ob : bool) (sel : oracle) (st : ast) (cl : client) (topic payload : bytes) (qos : N) (rt : bool)
+        (pid alias : N) :
   prefix (tag "$SYS") topic = true -> has_wild topic = false ->
-  fst (astep ob st (APublish cl topic payload qos rt pid)) = st /\
-  forall c m, ~ In (c, ADeliver m) (snd (astep ob st (APublish cl topic payload qos rt pid))).
+  fst (astep ob sel st (APublish cl topic payload qos rt pid alias)) = st /\
+  forall c m, ~ In (c, ADeliver m) (snd (astep ob sel st (APublish cl topic payload qos rt pid alias))).
 Proof.
   intros Hp Hw. cbn [Acl.astep]. destruct (online st cl) as [s|]; [|split; [reflexivity | intros c m []]].
-  rewrite Hw. unfold valid_pub_topic. rewrite Hp. cbn [negb andb fst snd]. split; [reflexivity|].
+  rewrite Hw. assert (Hn : nilb topic = false) by (destruct topic; [discriminate Hp | reflexivity]).
+  rewrite Hn. cbn [orb andb].
+  unfold valid_pub_topic. rewrite Hp. cbn [negb andb fst snd]. split; [reflexivity|].
   intros c m. destruct (qos =? 0); cbn; [tauto | intros [E|[]]; discriminate].
 Qed.
 
-(* will topics: a CONNECT whose will topic is no valid topic name is refused and changes nothing; every
-   will a session holds has a valid topic name *)
+(* will topics: a CONNECT whose will topic is no valid topic name is refused and changes nothing (also
+   when it would take over a live connection); every will a session holds has a valid topic name *)
 Theorem will_topic_valid (ob : bool) :
-  (forall st cl ver clean w, valid_pub_topic (w_topic w) = false ->
-     astep ob st (AConnect cl ver clean (Some w)) = (st, [(cl, AConnack false false); (cl, AClosed)])) /\
+  (forall sel st cl ver clean w, valid_pub_topic (w_topic w) = false ->
+     astep ob sel st (AConnect cl ver clean (Some w)) = (st, [(cl, AConnack false false); (cl, AClosed)])) /\
   (forall st c s w, reachable ob st -> In (c, s) (a_cl st) -> c_will s = Some w -> valid_pub_topic (w_topic w) = true).
 Proof.
   split.
-  - intros st cl ver clean w Hv. cbn [Acl.astep]. rewrite Hv. reflexivity.
+  - intros sel st cl ver clean w Hv. cbn [Acl.astep]. rewrite Hv. reflexivity.
   - intros st c s w Hr Hin Hw. destruct (reachable_inv ob st Hr) as (_ & _ & Hc & _). rewrite Forall_forall in Hc.
-    destruct (Hc _ Hin) as [_ H]. cbn in H. rewrite Hw in H. exact H.
+    destruct (Hc _ Hin) as (_ & H & _). cbn in H. rewrite Hw in H. exact H.
 Qed.
 
 (* ---------- C30, server-level clause: an invalid filter is answered 0x8F (0x80 for MQTT 3) and creates
    nothing: no index entry ever holds an invalid filter and no delivery rests on one ---------- *)
-Theorem subinvalid_code (ob : bool) (ver : N) (cl : client) (fs : list (bytes * N)) (i : nat) (f : bytes) (q : N) :
-  nth_error fs i = Some (f, q) -> valid_filter f = false ->
+Theorem subinvalid_code (ob : bool) (ver : N) (cl : client) (fs : list (bytes * (N * bool))) (i : nat) (f : bytes) (q : N) (nl : bool) :
+  nth_error fs i = Some (f, (q, nl)) -> valid_filter f = false ->
   nth_error (fst (sub_codes ver ob cl fs)) i = Some (if ver <? 5 then 128 else 143) /\
-  forall q', ~ In (f, q') (snd (sub_codes ver ob cl fs)).
+  forall o, ~ In (f, o) (snd (sub_codes ver ob cl fs)).
 Proof.
   intros Hn Hv. split.
-  - destruct (sub_codes_nth ver ob cl fs) as [_ H]. rewrite (H i f q Hn). rewrite Hv. cbn [negb].
+  - destruct (sub_codes_nth ver ob cl fs) as [_ H]. rewrite (H i f q nl Hn). unfold code_of. rewrite Hv. cbn [negb].
     unfold v3map. destruct (ver <? 5); reflexivity.
-  - intros q' Hin. destruct (sub_codes_granted ver ob cl fs f q' Hin) as [H _]. congruence.
+  - intros o Hin. destruct (sub_codes_granted ver ob cl fs f o Hin) as [H _]. congruence.
 Qed.
 
-Theorem subinvalid_creates_nothing (ob : bool) (st : ast) (c : client) (f : bytes) (q : N) :
-  reachable ob st -> valid_filter f = false -> ~ In (c, (f, q)) (a_subs st).
+Theorem subinvalid_creates_nothing (ob : bool) (st : ast) (c : client) (f : bytes) (o : N * bool) :
+  reachable ob st -> valid_filter f = false -> ~ In (c, (f, o)) (a_subs st).
 Proof.
   intros Hr Hv Hin. destruct (reachable_inv ob st Hr) as (Hs & _). rewrite Forall_forall in Hs.
   destruct (Hs _ Hin) as [H _]. cbn in H. congruence.
